@@ -55,6 +55,12 @@ func NewBreaker(r BreakerRule, log *[]Transition) *Breaker {
 	return &Breaker{R: r, Log: log}
 }
 
+// Rebuilt is the breaker that replaces b when its rule is modified without touching the statistic parameters
+// (interval, bucket count, strategy): closed, probes reset, the window of completed requests kept.
+func (b *Breaker) Rebuilt(r BreakerRule) *Breaker {
+	return &Breaker{R: r, Log: b.Log, comps: append([]completion(nil), b.comps...)}
+}
+
 func (b *Breaker) bucketLen() uint64 {
 	n := b.R.BucketCount
 	if n == 0 || b.R.StatIntervalMs%n != 0 {
